@@ -691,6 +691,37 @@ pub fn stuck(h: &Hist) -> StuckReport {
                 );
             } else {
                 let max_out = alive.iter().map(|s| outstanding_ub(h, s)).max().unwrap_or(0);
+                // streams that could be what holds the sender back (their start position is only
+                // known as a range, so this is an upper bound) ...
+                let blockers: Vec<&&StreamInfo> = alive.iter().filter(|s| outstanding_ub(h, s) >= h.n).collect();
+                // ... and whose consumer is itself stuck waiting for a value of that stream
+                let consumer_stuck_on = |sid: u32| {
+                    h.ex.outcome.threads.iter().any(|o| {
+                        !o.finished
+                            && o.activity.stream == sid
+                            && (CallKind::from_code(o.activity.kind).map(|k| k.is_blocking_recv()).unwrap_or(false)
+                                || o.activity.kind == ACT_TRY_DRAIN
+                                || (o.activity.kind == ACT_PARKED_STREAM && o.blocked == Some(Block::Park)))
+                    })
+                };
+                if max_out >= h.n && !blockers.is_empty() && blockers.iter().all(|s| consumer_stuck_on(s.id)) && h.senders_alive_lb(t) >= 1 {
+                    // Whatever the true start positions are: a stream that really has N values
+                    // outstanding has a value for its waiting consumer, and if no stream has,
+                    // nothing holds the sender back.  Both sides stuck is impossible.
+                    rep.findings.push(
+                        h.base_facts(Finding::new(
+                            if parked_sink { "ParkedSinkTask" } else { "SendRefusedForever" },
+                            format!(
+                                "{:?}: thread {} is {} and the consumers of every stream that could hold it back ({:?}) are waiting for a value at the same time: full and empty at once",
+                                v,
+                                th.tid,
+                                if parked_sink { "parked in a Sink send" } else { "retrying a refused send" },
+                                blockers.iter().map(|s| s.id).collect::<Vec<_>>()
+                            ),
+                        ))
+                        .fact("full_and_empty_at_once", true),
+                    );
+                }
                 if max_out < h.n {
                     rep.findings.push(
                         h.base_facts(Finding::new(
